@@ -82,10 +82,34 @@ def main():
     chk, res = got
     chk.run_witnesses(__import__('chanrun').BINS['dbg'])
     states = set()
+    known_nets = chancheck.load_known_networks()
     for r in res:
         if 'skip' in r:
             continue
         net = r['net']
+        if r.get('seed') == chancheck.FIXED_SEED:
+            # fixed corpus: failures are known only network by network
+            run = r['runs'][0]
+            chk.evaluations += 1
+            chk.count('fixed_corpus_networks')
+            kind = chancheck.failure_kind(r, run)
+            if kind is None or kind == 'sync-sender-early':
+                continue
+            listed = known_nets.get(r['stratum'], {}).get(str(r['idx']))
+            if listed == kind:
+                chk.count('fixed_corpus_known_failures')
+                fid = 'D5' if kind == 'panic' else 'D22'
+                f = [x for x in chk.findings['findings'] if x['id'] == fid]
+                if f:
+                    chk.known.setdefault(fid, {'what': f[0]['what_fails'], 'n': 0})
+                    chk.known[fid]['n'] += 1
+                continue
+            chk.violation('fixed-corpus %s#%d: %s on a network that is not listed in known_networks.json (listed: %s)%s' % (
+                r['stratum'], r['idx'], kind, listed, ' ' + chancheck.panic_signature(run) if kind == 'panic' else ''),
+                {'main.lay': r['text'], 'stdout.txt': run['stdout'], 'stderr.txt': run['stderr']},
+                {'stratum': r['stratum'], 'idx': r['idx'], 'kind': kind, 'unjustified': run['unjustified'],
+                 'model_main_completes': r['model']['main_done']})
+            continue
         model_done = r['model']['main_done']
         for run in r['runs']:
             chk.evaluations += 1
